@@ -151,7 +151,10 @@ def flush_keys(self: Obj("AxolotlControlLayer"), signed_prekey: Opaque("signedpr
     ensures(n_events("manager.set_prekeys_as_sent") == 0)
     # its success continuation marks exactly the uploaded keys as sent (and only when the server's result arrives) ...
     ensures(in_closure(event_arg("_sendIq", 0, 1), lambda: n_events("manager.set_prekeys_as_sent") == 1
-                       and event_arg("manager.set_prekeys_as_sent", 0, 1) == prekeys, nargs=2))
+                       and event_arg("manager.set_prekeys_as_sent", 0, 1) == prekeys, nargs=2,
+                       # it fires later, from receive() -> processIqRegistry, i.e. while connected (receive's precondition);
+                       # every other field of the layer may have been reassigned since
+                       given=lambda: self._manager is not None))
     # ... and its error continuation is the handler that touches nothing
     ensures(same_obj(event_arg("_sendIq", 0, 2), bound_method(self, "onSentKeysError")))
     propagates("*")
